@@ -17,8 +17,9 @@ UNITY_H = re.compile(r"_unity_(entities|types)\.h$")
 
 
 class Case:
-    def __init__(self, name, text, stem="schema", subdir="", ast=None, gen=None, exp_path=None):
+    def __init__(self, name, text, stem="schema", subdir="", ast=None, gen=None, exp_path=None, expect="accepted"):
         self.name, self.text, self.stem, self.subdir, self.ast, self.gen, self.exp_path = name, text, stem, subdir, ast, gen, exp_path
+        self.expect = expect      # "accepted" | "refused" (exp2cxx's identifier-length gate must reject it)
 
 
 # ---------------------------------------------------------------- running the real tools
@@ -57,18 +58,18 @@ def schema_names(case, b):
 
 # ---------------------------------------------------------------- the property oracle
 def oracle(case, res, names):
-    """-> None or (key, what).  Evaluates C17's statement on what the two real programs did."""
+    """-> None or [(key, what), …].  Evaluates C17's statement on what the two real programs did."""
     dirs = res["dirs_out"]
     parsed = {d: G.parse_cmakelists(t) for d, t in res["cmakes"].items()}
     described = sorted(p["schema"] for p in parsed.values())
     if len(set(dirs)) != len(names) or described != sorted(names):
         lost = sorted(set(names) - set(described))
-        return ("shortname-collision",
-                f"{len(names)} schemas {names} but {len(set(dirs))} distinct build directories {sorted(set(os.path.basename(d) for d in dirs))}; "
-                f"no build description survives for {lost}")
+        return [("shortname-collision",
+                 f"{len(names)} schemas {names} but {len(set(dirs))} distinct build directories {sorted(set(os.path.basename(d) for d in dirs))}; "
+                 f"no build description survives for {lost}")]
     for d, p in parsed.items():
         if not (p["project"] == p["short"] == d and os.path.join(res["sc_dir"], d) in dirs):
-            return ("dir-project-mismatch", f"directory {d}, PROJECT({p['project']}), short name {p['short']}, stdout {dirs}")
+            return [("dir-project-mismatch", f"directory {d}, PROJECT({p['project']}), short name {p['short']}, stdout {dirs}")]
     created = set(res["created"])
     listed_all = set()
     missing = {}
@@ -82,40 +83,52 @@ def oracle(case, res, names):
     if not missing and not unlisted:
         return None
     allm = sorted(x for v in missing.values() for x in v)
-    # canonical classes (the key names the *shape* of the failure, so another failure of C17 has another key)
-    up = {n: n.upper() for n in names}
-    def is_base(f):
-        return any(re.fullmatch(r"Sdai" + re.escape(u) + r"(\.h|\.cc|_unity_(entities|types)\.cc)", f) for u in up.values())
-    def is_suffixed(f):
-        return any(re.fullmatch(r"Sdai" + re.escape(u) + r"_\d+(\.h|\.cc|_unity_(entities|types)\.cc)", f) for u in up.values())
-    if allm and all(is_base(f) for f in allm) and unlisted and all(is_suffixed(f) for f in unlisted):
-        return ("multipass-suffix", f"exp2cxx printed a schema in several passes and named its files {unlisted[:4]}…, "
-                                    f"the scanner lists {allm[:4]}… which are never created")
-    if any(len(n) > 200 for n in names) and all(f.startswith("Sdai") for f in allm + unlisted):
-        return ("schema-name-truncated", f"schema name of {max(len(n) for n in names)} characters: exp2cxx truncates file names to "
-                                         f"MAX_LEN-1 characters ({[f[-12:] for f in unlisted]}), the scanner lists {[f[-12:] for f in allm]}")
-    def anon(f):
-        if f.startswith("type/"):
-            return "type-file"
-        if f.startswith("entity/"):
-            return "entity-file"
-        return "schema-file:" + re.sub(r"Sdai[A-Z0-9_]*?(?=(_unity|Names|\.init|\.h$|\.cc$))", "Sdai<S>", f)
-    key = "files:listed-not-created=" + ",".join(sorted({anon(f) for f in allm})) + ";created-not-listed=" + ",".join(sorted({anon(f) for f in unlisted}))
-    return (key, f"listed in CMakeLists.txt but not created by exp2cxx: {allm[:8]}; created but listed nowhere: {unlisted[:8]}")
+    # Decompose the mismatch into the known shapes, schema by schema (several may occur in one file); whatever is not
+    # explained by them is reported under a key that names the *shape* of the remaining failure.
+    found = []
+    rest_m, rest_u = set(allm), set(unlisted)
+    empty = [n for n, ds in (case.ast or []) if not any(l.startswith(("ent ", "type ")) for l in ds)]
+    for n in names:
+        u = re.escape(n.upper())
+        base = {f for f in rest_m if re.fullmatch(r"Sdai" + u + r"(\.h|\.cc|_unity_(entities|types)\.cc)", f)}
+        suf = {f for f in rest_u if re.fullmatch(r"Sdai" + u + r"_\d+(\.h|\.cc|_unity_(entities|types)\.cc)", f)}
+        if base and suf:
+            found.append(("multipass-suffix", f"exp2cxx printed schema {n} in several passes and named its files {sorted(suf)[:4]}…, "
+                                              f"the scanner lists {sorted(base)[:4]}… which are never created"))
+            rest_m -= base; rest_u -= suf
+        if n in empty:
+            mine = {f for f in rest_m if re.fullmatch(r"Sdai" + u + r"(\.h|\.cc|Names\.h|\.init\.cc|_unity_(entities|types)\.cc)", f)}
+            if mine:
+                found.append(("schema-without-entities-and-types",
+                              f"schema {n} declares neither types nor entities: exp2cxx never prints it (no Sdai<S>.h/.cc/…), the scanner lists {sorted(mine)[:5]}…"))
+                rest_m -= mine
+    if rest_m or rest_u:
+        def anon(f):
+            if f.startswith("type/"):
+                return "type-file"
+            if f.startswith("entity/"):
+                return "entity-file"
+            return "schema-file:" + re.sub(r"Sdai[A-Z0-9_]*?(?=(_unity|Names|\.init|\.h$|\.cc$))", "Sdai<S>", f)
+        key = ("files:listed-not-created=" + ",".join(sorted({anon(f) for f in rest_m})) +
+               ";created-not-listed=" + ",".join(sorted({anon(f) for f in rest_u})))
+        found.append((key, f"listed in CMakeLists.txt but not created by exp2cxx: {sorted(rest_m)[:8]}; created but listed nowhere: {sorted(rest_u)[:8]}"))
+    return found
 
 
 # ---------------------------------------------------------------- the model side
-def observed_sufs(names, created):
+def observed_sufs(names, created, ast=None):
     out = []
     for n in names:
         ks = sorted(int(m.group(1)) for f in created for m in [re.fullmatch(r"Sdai" + re.escape(n.upper()) + r"_(\d+)\.h", f)] if m)
-        out.append(f"{n}=" + ",".join(str(k) for k in (ks or [0])))
+        if not ks and f"Sdai{n.upper()}.h" in created:
+            ks = [0]
+        out.append(f"{n}=" + ",".join(str(k) for k in ks))       # no pass at all: the schema was never printed
     return ";".join(out)
 
 
 def correspondence(ctx, case, res, names, model_exe):
     """-> list of disagreement strings between the model and the real programs"""
-    lines = G.ast_lines(res["exp"], case.ast) + ["scan", "passes", "cxx auto", "cxx " + observed_sufs(names, res["created"])]
+    lines = G.ast_lines(res["exp"], case.ast) + ["scan", "passes", "cxx auto", "cxx " + observed_sufs(names, res["created"], case.ast)]
     rc, out, err = G.run_driver(model_exe, lines)
     if rc != 0 or len(out) != len(lines) or "bad-op" in out[:-4]:
         return [f"model driver rc={rc} answered {len(out)}/{len(lines)} lines {err[-200:]} {[o for o in out if o == 'bad-op'][:1]}"]
@@ -153,8 +166,8 @@ def correspondence(ctx, case, res, names, model_exe):
         mm = cobs[2:].split()
         if set(mm) != set(real):
             dis.append(f"files created by exp2cxx vs model with observed pass suffixes: only real {sorted(set(real)-set(mm))[:6]} only model {sorted(set(mm)-set(real))[:6]}")
-    elif cobs != "C overflow" or max(len(n) for n in names) <= 200:
-        dis.append(f"model answered {cobs!r}")
+    else:
+        dis.append(f"model answered {cobs!r} for an input exp2cxx accepted")
     return dis
 
 
@@ -171,7 +184,7 @@ def shrink(b, case, root, key, names_fn):
         if not r["accepted"]:
             return False
         o = oracle(c, r, [n for n, _ in c.ast])
-        return o is not None and o[0] == key
+        return o is not None and any(k == key for k, _ in o)
     changed = True
     while changed:
         changed = False
@@ -219,7 +232,12 @@ def fixed_cases():
         # known defects (DESIGN §6 has none for C17; found by this check)
         Case("two-schemas-short-file-name", TWO_TEXT, "ms", ast=TWO_AST),
         Case("mutually-dependent-schemas", MS_TEXT, "mutually_dependent_schemas_in_one_file", ast=MS_AST),
-        Case("schema-name-232-chars", f"SCHEMA {long_name};\nENTITY e1; END_ENTITY;\nEND_SCHEMA;\n", "long", ast=[(long_name, ["ent e1 0"])]),
+        Case("schema-without-entities-and-types", "SCHEMA only_fun;\nFUNCTION ff(x : INTEGER) : INTEGER;\n  RETURN (x);\nEND_FUNCTION;\nEND_SCHEMA;\n",
+             "empty_schema_file", ast=[("only_fun", ["other ff"])]),
+        # exp2cxx's identifier gate (MAX_IDENT_LEN = 200): longer names are refused with exit 1 before any file is written, so the
+        # truncating snprintf's of SCHEMAprint (former finding schema-name-truncated) are unreachable; 200 is still accepted
+        Case("schema-name-232-chars-refused", f"SCHEMA {long_name};\nENTITY e1; END_ENTITY;\nEND_SCHEMA;\n", "long", ast=[(long_name, ["ent e1 0"])], expect="refused"),
+        Case("schema-name-200-chars", f"SCHEMA {long_name[:200]};\nENTITY e1; END_ENTITY;\nEND_SCHEMA;\n", "long200", ast=[(long_name[:200], ["ent e1 0"])]),
     ]
 
 
@@ -230,6 +248,10 @@ def generated_cases(ctx, n):
         g = SG.Gen(r, mixed_case=r.choice([0, 0.3, 0.8]), case_collide=r.choice([0, 0.7]))
         nsch = r.choice([1, 1, 1, 2, 2, 3])
         f = g.schema_file(nschemas=nsch)
+        if r.random() < 0.12:      # a schema that declares neither types nor entities (known defect shape, see KNOWN_FINDINGS)
+            es = SG.Schema(f"s_only_functions_{i}")
+            es.add(SG.OtherDecl("FUNCTION", f"f_alone_{i}", f"FUNCTION f_alone_{i}(x : INTEGER) : INTEGER;\n  RETURN (x);\nEND_FUNCTION;"))
+            f.schemas.insert(r.randrange(len(f.schemas) + 1), es)
         # file names: short (schema name is longer), long, below a data/ directory with short or long last component
         stem = r.choice(["s", "sch", "schema_file_with_a_rather_long_name_%d" % i, f.schemas[0].name, "x" * 70])
         subdir = r.choice(["", "", "data/ap", "data/application_protocol_%d" % i, "some/data", "metadata/x1", "data"])
@@ -249,13 +271,23 @@ def shipped_cases(b, quick):
 def examine(ctx, b, case, model_exe, idx):
     root = os.path.join(ctx.work, f"c{idx}")
     res = run_real(b, case, root)
+    if case.expect == "refused":
+        ctx.count(1, key=case.text)
+        ctx.hist("inputs", "fixed: must be refused by exp2cxx's identifier gate")
+        rc, out, err = G.run_driver(model_exe, G.ast_lines(res["exp"], case.ast) + ["cxx auto"])
+        if res["cx_rc"] == 0 or G.tree_listing(os.path.join(root, "cx")):
+            ctx._disagree.append((case.name, f"exp2cxx rc={res['cx_rc']} created {len(res['created'])} files for an identifier the model says is refused", None))
+        elif rc != 0 or not out or out[-1] != "C refused":
+            ctx._disagree.append((case.name, f"exp2cxx refuses the input (rc={res['cx_rc']}) but the model answers {out[-1:] }", None))
+        shutil.rmtree(root, ignore_errors=True)
+        return
     if not res["accepted"]:
         if case.exp_path is None:
             ctx.hist("inputs", "generated-but-rejected")
             if not hasattr(ctx, "_rej"):
                 ctx._rej = 0
             ctx._rej += 1
-            if case.name.startswith(("all-", "two-", "mutually", "schema-name")):
+            if case.name.startswith(("all-", "two-", "mutually", "schema-")):
                 ctx.broken.append(("fixed input rejected", f"{case.name}: scanner rc={res['sc_rc']} exp2cxx rc={res['cx_rc']} {res['cx_err']}"))
         else:
             ctx.hist("inputs", "shipped-rejected-by-tool (not in C17's domain)")
@@ -270,10 +302,11 @@ def examine(ctx, b, case, model_exe, idx):
             if ft.startswith(("type:", "multi", "foreign", "mixed")):
                 ctx.hist("features", ft)
     o = oracle(case, res, names)
-    if o is not None and len(ctx.violations) < 3:
-        key, what = o
+    from vlib import findings as F
+    for key, what in (o or []):
+        if len(ctx.violations) >= 3:
+            break
         mc = case
-        from vlib import findings as F
         if case.gen is not None and not F.lookup(ctx.pid, key):
             mc = shrink(b, case, root + "-shrink", key, None)
             shutil.rmtree(root + "-shrink", ignore_errors=True)
@@ -283,7 +316,7 @@ def examine(ctx, b, case, model_exe, idx):
                        "how": "run `schema_scanner <file>` in an empty directory and `exp2cxx <file>` in another; compare the file names in "
                               "the set(..._hdrs/_impls ...) blocks of every <dir>/CMakeLists.txt with the files exp2cxx created"})
     dis = correspondence(ctx, case, res, names, model_exe)
-    if dis and not (o is not None and o[0] == "schema-name-truncated" and False):
+    if dis:
         ctx._disagree.append((case.name, dis[0], o))
     shutil.rmtree(root, ignore_errors=True)
 
@@ -326,7 +359,7 @@ def run(ctx):
         "files": len(cases), "rejected_generated": getattr(ctx, "_rej", 0), "disagreements": len(ctx._disagree), "wall_s": round(time.time() - t0, 1)}
     ctx.cov["rule"] = ("per input file: CMakeLists.txt of every schema byte-compared with the model, stdout directory lines, the set of files "
                        "exp2cxx created vs the model (pass suffixes predicted when no cross-schema dependency, observed otherwise); "
-                       "fixed inputs cover every defined-type shape incl. renamed enum/select and the three known defect shapes; "
+                       "fixed inputs cover every defined-type shape incl. renamed enum/select, the three known defect shapes and exp2cxx's identifier-length gate (232 refused, 200 accepted); "
                        "generated: 1-3 schemas per file, REFERENCE FROM, mixed-case and case-colliding identifiers, file names/dirs exercising makeShortName")
     if cases:
         ctx.sample({"input": cases[0].name, "express_head": (cases[0].text or "")[:300]})
@@ -336,7 +369,7 @@ def run(ctx):
     # model != implementation while the oracle is satisfied on that input -> broken tie (after the search above)
     for name, d, o in ctx._disagree:
         if o is None or True:
-            ctx.broken.append(("correspondence GenFiles model vs schema_scanner/exp2cxx", f"[{name}] {d}" + (f" (oracle: {o[0]})" if o else " (oracle satisfied)")))
+            ctx.broken.append(("correspondence GenFiles model vs schema_scanner/exp2cxx", f"[{name}] {d}" + (f" (oracle: {[k for k, _ in o]})" if o else " (oracle satisfied)")))
             break
 
 
